@@ -451,6 +451,7 @@ func corr(e *env, seed uint64, n int) {
 				samples = append(samples, frame(genVideoSampleCenc(r, codec, 0)))
 			}
 		}
+		samples = withEmptySamples(r, codec, samples)
 		key := r.Bytes(16, nil)
 		iv := genIV(r, r.Pick(8, 16))
 		o := fragOpts{extraMoof: r.Pick(0, 1, 2, 3), extraTraf: r.Pick(0, 1, 2, 3), moofBefore: r.Bool(), wide: genWide(r, false)}
@@ -684,6 +685,7 @@ func search(e *env, seed uint64, n int, bins string) {
 				samples = append(samples, frame(genVideoSampleCenc(r, codec, b)))
 			}
 		}
+		samples = withEmptySamples(r, codec, samples)
 		// a video fragment mixing a sample without any protection range (a single empty NAL unit) with normal ones
 		mixed := false
 		if codec != 'u' && ns >= 2 && i%40 == 7 {
@@ -706,6 +708,9 @@ func search(e *env, seed uint64, n int, bins string) {
 		if fr.class == "panic" && mixed {
 			fail("mp4.EncryptFragment", "encrypt-panic-mixed-subsamples", wit, "EncryptFragment panics (SencBox.calcSize indexes SubSamples out of range) on a video fragment in which one sample has no protection range and another has")
 			continue
+		}
+		if fr.class == "err" && e.refusedSample(codec, scheme, samples) {
+			continue // an empty video sample: the protection-range function refuses it, nothing was encrypted
 		}
 		if fr.class != "ok" {
 			fail("mp4.EncryptFragment", "encrypt-"+fr.class, wit, "EncryptFragment does not succeed on a well-formed clear fragment")
@@ -879,6 +884,7 @@ func (e *env) buildClearFile(codec byte, scheme string, fo fileOpts, r *hx.Rng) 
 				samples = append(samples, frame(genVideoSampleCenc(r, codec, 0)))
 			}
 		}
+		samples = withEmptySamples(r, codec, samples)
 		sg := sigOpts{}
 		if fo.sig {
 			sg = sigOpts{size: r.Intn(3), dur: r.Intn(3), flags: r.Intn(3)}
@@ -1073,6 +1079,15 @@ func searchFiles(e *env, r *hx.Rng, n int) {
 		if fo.sidx {
 			cls = "file-sidx"
 		}
+		if stage == "encrypt-err" {
+			refused := false
+			for _, fs := range samples {
+				refused = refused || e.refusedSample(codec, scheme, fs)
+			}
+			if refused {
+				continue // a fragment with an empty video sample: refused by the protection-range function
+			}
+		}
 		if stage != "ok" {
 			if fo.baseVar != 0 {
 				fail("mp4.EncryptFragment+DecryptSegment", cls, wit, "clear file with an absolute tfhd base_data_offset: encrypt -> encode -> decode -> decrypt stops at "+stage+" ("+lastErr+")")
@@ -1171,6 +1186,7 @@ func searchBins(e *env, r *hx.Rng, n int, bins string) {
 				samples = append(samples, frame(genVideoSampleCenc(r, codec, 1)))
 			}
 		}
+		samples = withEmptySamples(r, codec, samples)
 		iv := genIV(r, r.Pick(8, 16))
 		key := r.Bytes(16, nil)
 		o := fragOpts{extraMoof: r.Pick(0, 1, 2), extraTraf: r.Pick(0, 1, 2, 3), moofBefore: r.Bool(), wide: genWide(r, false)}
@@ -1185,6 +1201,9 @@ func searchBins(e *env, r *hx.Rng, n int, bins string) {
 		evals++
 		c1 := exec.Command(filepath.Join(bins, "mp4ff-encrypt"), "-kid", kidHex, "-key", hx.Hex(key), "-iv", hx.Hex(iv), "-scheme", scheme, in, enc)
 		if ob, err := c1.CombinedOutput(); err != nil {
+			if e.refusedSample(codec, scheme, samples) {
+				continue // an empty video sample: refused by the protection-range function
+			}
 			fail("cmd/mp4ff-encrypt", "binary-encrypt-fails", wit, strings.TrimSpace(string(ob)))
 			continue
 		}
